@@ -47,7 +47,21 @@ def run(ctx):
             def gt(vals):
                 seen["args"] = (repr(vals[0]), repr(vals[1]))
                 return later
-            hooks = {("call", "std::cmp::PartialOrd::gt"): gt, ("call", "std::time::Instant::now"): lambda vals: Opaque("NOW")}
+
+            def lt(vals):                      # now() < expire_at  ==  expire_at > now()
+                seen["args"] = (repr(vals[1]), repr(vals[0]))
+                return later
+
+            def ge(vals):                      # a >= b  ==  !(b > a): used as `now() >= expire_at` (expired)
+                seen["args"] = (repr(vals[1]), repr(vals[0]))
+                return int(not later)
+
+            def le(vals):                      # a <= b  ==  !(a > b): `expire_at <= now()` (expired)
+                seen["args"] = (repr(vals[0]), repr(vals[1]))
+                return int(not later)
+            hooks = {("call", "std::cmp::PartialOrd::gt"): gt, ("call", "std::cmp::PartialOrd::lt"): lt,
+                     ("call", "std::cmp::PartialOrd::ge"): ge, ("call", "std::cmp::PartialOrd::le"): le,
+                     ("call", "std::time::Instant::now"): lambda vals: Opaque("NOW")}
             ev = Evaluator(prog, hooks)
             flt = {"authoritative": auth, "cached": cached, "subdomain": 1}
             r1 = ev.call(B["mf"], [flt, EnumVal("ResourceRecordType", "Authoritative")])
